@@ -22,6 +22,9 @@ def main():
         if a.prop in ("C07", "C08"):
             import suite_table
             return suite_table.run(a.prop, a.tier, seed, a.replay)
+        if a.prop in ("C04", "C05", "C12", "C06", "C11"):
+            import suite_expr
+            return suite_expr.run(a.prop, a.tier, seed, a.replay)
         print("unknown property", a.prop)
         return 2
     except C.Infra as e:
